@@ -63,7 +63,6 @@ def RegInv (R : Res) (fr : Frame) : Prop := ∀ r, Cov (fr.regs r) (R.pt fr.fn r
 
 structure MemInv (P : Prog) (R : Res) (m : Mem) : Prop where
   heap : ∀ o q, CovL (m.heap o q) (R.heap (o.site, absPath q))
-  payload : ∀ o, CovL (m.payload o) (R.heap (o.site, [ASel.pay]))
   env : ∀ o g, o.site = Site.fn g → ∀ fv v, (fv, v) ∈ (P.fvs g).zip (m.env o) → Cov v (R.pt g fv)
 
 /-- every `return` of the function of `fr` is covered in the result registers of a caller frame running `f'` -/
@@ -150,13 +149,10 @@ theorem label_ext (o : Obj) (p : List CSel) (cs : CSel) :
     (o.site, absPath (p ++ [cs])) = ext (o.site, absPath p) cs.abs := by
   simp [ext, absPath]
 
-theorem label_Ext {o : Obj} {p q : List CSel} {s : Option ASel} (h : Ext p s q) :
-    (o.site, absPath q) = extO (o.site, absPath p) s := by
-  cases s with
-  | none => simp only [Ext] at h; simp [extO, h]
-  | some a =>
-    obtain ⟨cs, hcs, rfl⟩ := h
-    simp [extO, label_ext, hcs]
+theorem label_Ext {o : Obj} {p q : List CSel} {s : List ASel} (h : Ext p s q) :
+    (o.site, absPath q) = extP (o.site, absPath p) s := by
+  obtain ⟨cs, hcs, rfl⟩ := h
+  simp [extP, absPath, ← hcs]
 
 /-- a pointer value is covered only if its label is in the set -/
 theorem cov_ptr_mem {o : Obj} {p : List CSel} {S : List Label}
@@ -170,26 +166,24 @@ theorem cov_fn_mem {g : Nat} {S : List Label} (h : Cov (Val.fn g) (some S)) : (S
 
 theorem memInv_setHeap {P : Prog} {R : Res} {m : Mem} (h : MemInv P R m) (o : Obj) (q : List CSel) (v : Val)
     (hv : CovL v (R.heap (o.site, absPath q))) : MemInv P R (m.setHeap o q v) := by
-  refine ⟨?_, h.payload, h.env⟩
+  refine ⟨?_, h.env⟩
   intro o' q'
   simp only [Mem.setHeap]
   split
   · next e => rw [e.1, e.2]; exact hv
   · exact h.heap o' q'
 
-theorem memInv_setPayload {P : Prog} {R : Res} {m : Mem} (h : MemInv P R m) (o : Obj) (v : Val)
-    (hv : CovL v (R.heap (o.site, [ASel.pay]))) : MemInv P R (m.setPayload o v) := by
-  refine ⟨h.heap, ?_, h.env⟩
-  intro o'
-  simp only [Mem.setPayload]
-  split
-  · next e => rw [e]; exact hv
-  · exact h.payload o'
+theorem memInv_setHeapMany {P : Prog} {R : Res} (o : Obj) : ∀ (cells : List (List CSel × Val)) {m : Mem},
+    MemInv P R m → (∀ c ∈ cells, CovL c.2 (R.heap (o.site, absPath c.1))) → MemInv P R (m.setHeapMany o cells)
+  | [], _, h, _ => h
+  | c :: cs, _, h, hc => by
+    simp only [Mem.setHeapMany]
+    exact memInv_setHeapMany o cs (memInv_setHeap h o c.1 c.2 (hc c (by simp))) (fun c' hc' => hc c' (by simp [hc']))
 
 theorem memInv_setEnv {P : Prog} {R : Res} {m : Mem} (h : MemInv P R m) (o : Obj) (vs : List Val)
     (hv : ∀ g, o.site = Site.fn g → ∀ fv v, (fv, v) ∈ (P.fvs g).zip vs → Cov v (R.pt g fv)) :
     MemInv P R (m.setEnv o vs) := by
-  refine ⟨h.heap, h.payload, ?_⟩
+  refine ⟨h.heap, ?_⟩
   intro o' g hs fv v hfv
   simp only [Mem.setEnv] at hfv
   split at hfv
@@ -239,6 +233,16 @@ theorem mem_zip_map {α β γ : Type} {f : β → γ} : ∀ {rs : List α} {xs :
     · exact ⟨x0, by simp, rfl⟩
     · obtain ⟨x, hx, hv⟩ := mem_zip_map h
       exact ⟨x, by simp [hx], hv⟩
+
+theorem mem_zip_map_of_mem {α β γ : Type} (f : β → γ) : ∀ {rs : List α} {xs : List β} {r : α} {x : β},
+    (r, x) ∈ rs.zip xs → (r, f x) ∈ rs.zip (xs.map f)
+  | [], _, _, _, h => by simp at h
+  | _ :: _, [], _, _, h => by simp at h
+  | r0 :: rs, x0 :: xs, r, x, h => by
+    simp only [List.zip_cons_cons, List.mem_cons, Prod.mk.injEq] at h
+    rcases h with ⟨rfl, rfl⟩ | h
+    · simp
+    · simp [mem_zip_map_of_mem f h]
 
 section
 variable {P : Prog} {R : Res}
@@ -306,7 +310,7 @@ theorem exec_next {fr fr' : Frame} {m m' : Mem} {i : Instr}
     have hl' := cov_ptr_mem hy
     simp only [List.all_eq_true, Bool.or_eq_true] at hall
     have h1 := hall _ hl
-    have h2 : ∀ ly ∈ Y, subL (R.heap (ext ly sy)) (R.heap (ext (o.site, absPath p) sx)) = true := by
+    have h2 : ∀ ly ∈ Y, subL (R.heap (extP ly sy)) (R.heap (extP (o.site, absPath p) sx)) = true := by
       rcases h1 with h1 | h1
       · exfalso
         cases only with
@@ -316,18 +320,37 @@ theorem exec_next {fr fr' : Frame} {m m' : Mem} {i : Instr}
     have h3 := h2 _ hl'
     have e1 := label_Ext (o := o) hq
     have e2 := label_Ext (o := o') hq'
-    simp only [extO] at e1 e2
     rw [← e1, ← e2] at h3
     exact covL_sub h3 (hmem.heap o' q')
-  | mkiface r n t x id =>
+  | mkiface r n t pay id cells hcells =>
     simp only [instrOK, Bool.and_eq_true] at hp
-    refine ⟨rfl, rfl, regInv_set hreg _ _ ?_, memInv_setPayload hmem _ _ ?_⟩
+    refine ⟨rfl, rfl, regInv_set hreg _ _ ?_, memInv_setHeapMany _ cells hmem ?_⟩
     · exact memO_cov hp.1 (by intro l hl; simp [Val.label, absPath] at hl; exact hl.symm)
-    · obtain ⟨Y, hY, hsub⟩ := srcs_some hp.2
-      have hx := eval_cov hreg x
-      rw [hY] at hx
-      exact covL_sub hsub (cov_some.1 hx)
-  | tassert r x t o n he hs =>
+    · have hall := hp.2
+      clear hp
+      induction pay generalizing cells with
+      | nil =>
+        cases cells with
+        | nil => intro c hc; simp at hc
+        | cons c cs => simp [PayCells] at hcells
+      | cons py pay ih =>
+        cases cells with
+        | nil => simp [PayCells] at hcells
+        | cons c cs =>
+          simp only [PayCells] at hcells
+          obtain ⟨⟨cs', hcs', hc1⟩, hc2, hrest⟩ := hcells
+          simp only [List.all_cons, Bool.and_eq_true] at hall
+          intro c' hc'
+          rcases List.mem_cons.1 hc' with rfl | hc'
+          · obtain ⟨Y, hY, hsub⟩ := srcs_some hall.1
+            have hx := eval_cov hreg py.2
+            rw [hY] at hx
+            rw [hc2, hc1]
+            have : absPath (CSel.pay :: cs') = ASel.pay :: py.1 := by simp [absPath, CSel.abs, ← hcs']
+            rw [this]
+            exact covL_sub hsub (cov_some.1 hx)
+          · exact ih cs hrest hall.2 c' hc'
+  | tassert r x t π o n cs he hs hcs =>
     refine ⟨rfl, rfl, regInv_set hreg _ _ ?_, hmem⟩
     simp only [instrOK] at hp
     obtain ⟨S, hS, hall⟩ := srcs_some hp
@@ -337,8 +360,9 @@ theorem exec_next {fr fr' : Frame} {m m' : Mem} {i : Instr}
     simp only [List.all_eq_true] at hall
     have := hall _ hl
     simp only [hs, absPath, List.map_nil, bne_self_eq_false, Bool.false_or] at this
-    have hpay := hmem.payload o
-    rw [hs] at hpay
+    have hpay := hmem.heap o (CSel.pay :: cs)
+    have e : absPath (CSel.pay :: cs) = ASel.pay :: π := by simp [absPath, CSel.abs, ← hcs]
+    rw [hs, e] at hpay
     exact inclO_cov this (cov_some.2 hpay)
   | tfilter r x ts o n t he hs ht =>
     refine ⟨rfl, rfl, regInv_set hreg _ _ ?_, hmem⟩
@@ -390,10 +414,10 @@ theorem exec_call {fr nf : Frame} {m : Mem} {i : Instr} {spawn : Bool} {ev : Eve
       cases hres with
       | static g =>
         refine ⟨hc, fun ha => ⟨?_, by simp⟩⟩
-        simp only [argsOK] at ha
+        simp only [argsOK, bindOK] at ha
         intro r v hrv
         obtain ⟨a, ha', rfl⟩ := mem_zip_map hrv
-        exact inclO_cov (zipAll_iff.1 ha r a ha') (eval_cov hreg a)
+        exact inclO_cov (zipAll_iff.1 ha r _ (mem_zip_map_of_mem (ptOp R fr.fn) ha')) (eval_cov hreg a)
       | func x g he =>
         simp only [calleeOK] at hc
         obtain ⟨S, hS, hall⟩ := srcs_some hc
@@ -401,10 +425,10 @@ theorem exec_call {fr nf : Frame} {m : Mem} {i : Instr} {spawn : Bool} {ev : Eve
         rw [he, hS] at hx
         simp only [List.all_eq_true] at hall
         refine ⟨hall _ (cov_fn_mem hx), fun ha => ⟨?_, by simp⟩⟩
-        simp only [argsOK] at ha
+        simp only [argsOK, bindOK] at ha
         intro r v hrv
         obtain ⟨a, ha', rfl⟩ := mem_zip_map hrv
-        exact inclO_cov (zipAll_iff.1 ha r a ha') (eval_cov hreg a)
+        exact inclO_cov (zipAll_iff.1 ha r _ (mem_zip_map_of_mem (ptOp R fr.fn) ha')) (eval_cov hreg a)
       | closure x o g he hs =>
         simp only [calleeOK] at hc
         obtain ⟨S, hS, hall⟩ := srcs_some hc
@@ -415,11 +439,11 @@ theorem exec_call {fr nf : Frame} {m : Mem} {i : Instr} {spawn : Bool} {ev : Eve
         have := hall _ hl
         simp only [hs, absPath, List.map_nil] at this
         refine ⟨this, fun ha => ⟨?_, hmem.env o g hs⟩⟩
-        simp only [argsOK] at ha
+        simp only [argsOK, bindOK] at ha
         intro r v hrv
         obtain ⟨a, ha', rfl⟩ := mem_zip_map hrv
-        exact inclO_cov (zipAll_iff.1 ha r a ha') (eval_cov hreg a)
-      | invoke x mth o n t g he hs hm =>
+        exact inclO_cov (zipAll_iff.1 ha r _ (mem_zip_map_of_mem (ptOp R fr.fn) ha')) (eval_cov hreg a)
+      | invoke x mth o n t g paths cells he hs hm hcells =>
         simp only [calleeOK] at hc
         obtain ⟨S, hS, hall⟩ := srcs_some hc
         have hx := eval_cov hreg x
@@ -430,25 +454,39 @@ theorem exec_call {fr nf : Frame} {m : Mem} {i : Instr} {spawn : Bool} {ev : Eve
         simp only [hs, absPath, List.map_nil, hm] at this
         refine ⟨this, fun ha => ⟨?_, by simp⟩⟩
         simp only [argsOK] at ha
-        cases hps : P.params g with
-        | nil => simp
-        | cons p0 ps =>
-          rw [hps] at ha
-          simp only [Bool.and_eq_true] at ha
-          obtain ⟨S', hS', hall'⟩ := srcs_some ha.2
-          rw [hS] at hS'
-          cases hS'
-          simp only [List.all_eq_true] at hall'
-          have h0 := hall' _ hl
-          simp only [hs, absPath, List.map_nil, hm, if_true] at h0
-          intro r v hrv
-          simp only [List.zip_cons_cons, List.mem_cons, Prod.mk.injEq] at hrv
-          rcases hrv with ⟨rfl, rfl⟩ | hrv
-          · have hpay := hmem.payload o
-            rw [hs] at hpay
-            exact inclO_cov h0 (cov_some.2 hpay)
-          · obtain ⟨a, ha', rfl⟩ := mem_zip_map hrv
-            exact inclO_cov (zipAll_iff.1 ha.1 r a ha') (eval_cov hreg a)
+        obtain ⟨S', hS', hall'⟩ := srcs_some ha
+        rw [hS] at hS'
+        cases hS'
+        simp only [List.all_eq_true] at hall'
+        have h0 := hall' _ hl
+        simp only [hs, absPath, List.map_nil, hm, if_true, bindOK] at h0
+        -- both lists are images of one list of sources: payload cells, then argument operands
+        let srcL : List (List CSel ⊕ Opnd) := cells.map Sum.inl ++ args.map Sum.inr
+        let valOf : List CSel ⊕ Opnd → Val := fun s =>
+          match s with
+          | .inl cs => m.heap o (CSel.pay :: cs)
+          | .inr a => eval fr a
+        let ptOf : List CSel ⊕ Opnd → Option (List Label) := fun s =>
+          match s with
+          | .inl cs => some (R.heap (Site.iface n t, ASel.pay :: cs.map CSel.abs))
+          | .inr a => ptOp R fr.fn a
+        have e1 : (cells.map fun cs => m.heap o (CSel.pay :: cs)) ++ args.map (eval fr) = srcL.map valOf := by
+          simp [srcL, valOf, List.map_append, List.map_map, Function.comp_def]
+        have e2 : (paths.map fun π => some (R.heap (Site.iface n t, ASel.pay :: π))) ++ args.map (ptOp R fr.fn)
+            = srcL.map ptOf := by
+          simp [srcL, ptOf, ← hcells, absPath, List.map_append, List.map_map, Function.comp_def]
+        rw [e2] at h0
+        intro r v hrv
+        rw [e1] at hrv
+        obtain ⟨src, hsrc, rfl⟩ := mem_zip_map hrv
+        have hin := zipAll_iff.1 h0 r _ (mem_zip_map_of_mem ptOf hsrc)
+        cases src with
+        | inl cs =>
+          have hpay := hmem.heap o (CSel.pay :: cs)
+          have e : absPath (CSel.pay :: cs) = ASel.pay :: cs.map CSel.abs := by simp [absPath, CSel.abs]
+          rw [hs, e] at hpay
+          exact inclO_cov hin (cov_some.2 hpay)
+        | inr a => exact inclO_cov hin (eval_cov hreg a)
     obtain ⟨hedge, hbind⟩ := key
     obtain ⟨hcg, hreach, hlt⟩ := edgeOK_iff.1 hedge
     have hrule := hp g hlt
@@ -570,7 +608,7 @@ theorem step_inv (hpc : ptrClosed P R = true) (hcc : cgClosed P R = true)
         | exit => cases he
 
 theorem init_inv (hcc : cgClosed P R = true) : Inv P R (initState P) := by
-  refine ⟨?_, ⟨fun _ _ => covL_nil _, fun _ => covL_nil _, ?_⟩⟩
+  refine ⟨?_, ⟨fun _ _ => covL_nil _, ?_⟩⟩
   · intro stk hstk
     simp only [initState, List.mem_map] at hstk
     obtain ⟨g, hg, rfl⟩ := hstk
